@@ -47,6 +47,11 @@ fn more_values() -> Vec<Value> {
         Value::date_time(chrono::NaiveDate::from_ymd_opt(-44, 3, 15).unwrap().and_hms_opt(12, 0, 0).unwrap()),
         Value::date_time(chrono::NaiveDate::from_ymd_opt(-50, 1, 1).unwrap().and_hms_opt(0, 0, 0).unwrap()),
         Value::date_time(chrono::NaiveDate::from_ymd_opt(14, 8, 19).unwrap().and_hms_opt(0, 0, 0).unwrap()),
+        // midnight and an instant within the first second after it (seed C12-5: the midnight test of
+        // DateTime -> Date compared hour, minute and second only)
+        Value::date_time(chrono::NaiveDate::from_ymd_opt(2000, 2, 29).unwrap().and_hms_opt(0, 0, 0).unwrap()),
+        Value::date_time(chrono::NaiveDate::from_ymd_opt(2000, 2, 29).unwrap().and_hms_milli_opt(0, 0, 0, 500).unwrap()),
+        Value::date_time(chrono::NaiveDate::from_ymd_opt(2000, 2, 29).unwrap().and_hms_nano_opt(0, 0, 0, 1).unwrap()),
         Value::duration(chrono::Duration::milliseconds(30_250)),
         Value::duration(chrono::Duration::milliseconds(30_750)),
     ]
